@@ -1520,3 +1520,13 @@ package runtime
 //@   prop C03
 //@   effectsonly
 //@   effects writes-only hashTableSlot.value
+
+// C10: coroutine.close unwinds a suspended coroutine with a panic (threadClose)
+// that passes through every protected call of the coroutine; CallContext only
+// handles context terminations, so whatever else it recovers is re-raised with
+// the thread's state - in particular the pending to-be-closed values - untouched:
+// they are closed by the frame that handles the signal (Thread.end).
+//@ func (*Thread).CallContext$1
+//@   prop C10
+//@   effectsonly
+//@   effects repanic-clean
